@@ -500,3 +500,21 @@ pub fn entry_vs_snapshot(e: &DEntry, s: &crate::tree::SNode, owner: bool) -> Opt
     }
     None
 }
+
+/// How many files of `snap` a correct incremental backup must be able to take over
+/// unchanged from its basis: the basis is the stitched listing of the newest band directory
+/// (bands that do not open are passed over), and a file is reusable when the basis has a File
+/// entry for its path with the same mtime and size whose blocks are all intact.
+pub fn expected_reusable_files(view: &ArchiveView, snap: &crate::tree::Snap) -> usize {
+    let Some(newest) = view.bands.keys().next_back().copied() else { return 0 };
+    let basis: std::collections::BTreeMap<String, DEntry> = ref_stitch(view, newest).into_iter().map(|(_, e)| (e.apath.clone(), e)).collect();
+    snap.iter()
+        .filter(|(p, n)| {
+            n.kind == 'f'
+                && basis
+                    .get(*p)
+                    .map(|e| e.kind == "File" && (e.mtime, e.mtime_nanos) == (n.mtime.0, n.mtime.1 as u64) && e.size() == n.data.len() as u64 && reassemble(view, e).is_ok())
+                    .unwrap_or(false)
+        })
+        .count()
+}
